@@ -71,9 +71,9 @@ type Extra401 struct {
 
 // HostSpec is one model host.
 type HostSpec struct {
-	Name   string `json:"name"`   // URL host the model answers on (may carry a port)
-	Kind   string `json:"kind"`   // registry | storage | external | upload | token | link
-	Origin int    `json:"origin"` // storage / upload / link: index of the registry it belongs to (-1)
+	Name   string `json:"name"`             // URL host the model answers on (may carry a port)
+	Kind   string `json:"kind"`             // registry | storage | external | upload | token | link
+	Origin int    `json:"origin"`           // storage / upload / link: index of the registry it belongs to (-1)
 	Scheme string `json:"scheme,omitempty"` // unconfigured hosts: scheme other hosts use in URLs that point here ("" = https)
 
 	// client configuration
@@ -128,15 +128,27 @@ type Op struct {
 	Flags   int    `json:"flags,omitempty"` // copy: 1 include-external, 2 referrers, 4 digest-tags
 }
 
+// FaultSpec is one transient (or final) failure injected at a host request ordinal, before the
+// host looks at the request (status, reset) or while it delivers the answer (truncate).
+type FaultSpec struct {
+	Host       int    `json:"host"`
+	At         int    `json:"at"`   // host request ordinal
+	Kind       string `json:"kind"` // status | reset-before | reset-after | truncate
+	Status     int    `json:"status,omitempty"`
+	RetryAfter string `json:"retry_after,omitempty"`
+	Off        int    `json:"off,omitempty"` // truncate offset
+}
+
 // Case is the generated unit.
 type Case struct {
-	Salt    int        `json:"salt"`
-	Hosts   []HostSpec `json:"hosts"`
-	Decoys  []Decoy    `json:"decoys,omitempty"`
-	Ops     []Op       `json:"ops"`
-	Chunked bool       `json:"chunked,omitempty"` // small chunk / max-put sizes so that uploads are chunked
-	Special bool       `json:"special,omitempty"` // passwords contain characters that differ under URL / form encoding
-	LogVia  string     `json:"log_via,omitempty"` // "" slog text handler | json slog JSON handler | logrus | logrus-json (the logrus bridge)
+	Salt    int         `json:"salt"`
+	Hosts   []HostSpec  `json:"hosts"`
+	Decoys  []Decoy     `json:"decoys,omitempty"`
+	Ops     []Op        `json:"ops"`
+	Faults  []FaultSpec `json:"faults,omitempty"`
+	Chunked bool        `json:"chunked,omitempty"` // small chunk / max-put sizes so that uploads are chunked
+	Special bool        `json:"special,omitempty"` // passwords contain characters that differ under URL / form encoding
+	LogVia  string      `json:"log_via,omitempty"` // "" slog text handler | json slog JSON handler | logrus | logrus-json (the logrus bridge)
 }
 
 var repoNames = []string{"proj/app", "lib/base"}
@@ -297,5 +309,8 @@ func (c *Case) shape() string {
 	}
 	sort.Strings(ops)
 	sb.WriteString(strings.Join(ops, ","))
+	for _, f := range c.Faults {
+		fmt.Fprintf(&sb, ";f%d@%d:%s%d", f.Host, f.At, f.Kind, f.Status)
+	}
 	return sb.String()
 }
